@@ -77,7 +77,12 @@ void SelectLoop::runLoop(Mode mode)
                     if (iter == fd_data_map_.end())
                         continue;
 
-                    SelectFdEvent::OnEventCallback(is_readable, is_writable, is_except, iter->second);
+                    //! 回调期间持有一次引用，防止共享数据在遍历过程中被释放
+                    //! (hold a reference so that the record outlives the callbacks it is serving)
+                    auto *data = iter->second;
+                    ++data->ref;
+                    SelectFdEvent::OnEventCallback(is_readable, is_writable, is_except, data);
+                    unrefFdSharedData(fd);
                 }
             }
         } else if (select_ret == -1) {
